@@ -14,9 +14,9 @@ P = {
    "Trusts go/types, the formula and recurrence tables transcribed from the doc comments, the intrinsic-offset table, Γ, the declared IdlePeriod contracts of sub-indicators (C02's obligation), Fourier–Motzkin and the polynomial normal forms. Genuine defects pinned by the unedited tests are listed as known findings: Apo, Dema, Emv, Fi (operands of different days), UlcerIndex (sqrt(Sma(PD)^2) instead of sqrt(Sma(PD^2))), Obv (compares the close with the previous OBV). Repaired: MovingMax/MovingMin removed the Shift padding value 0 from the window (6142cb6).",
    "§4 C01"),
  "C03": (True,
-   "Kahn-network structure analysis over the stage graph derived by the shape calculus: determinacy lint, channel linearity, close-on-all-exits, drain-on-exit, symbolic buffer >= anchor-skew at every fork/join",
+   "Kahn-network structure analysis over the stage graph derived by the shape calculus: determinacy lint, channel linearity, close-on-all-exits, drain-on-exit, symbolic buffer >= anchor-skew (plus the element a branch must take when the fork serves it before the branch the join reads first) at every fork/join",
    "Static analysis of structural conditions, not of schedules: (R1) no select/len(ch)/cap(ch) outside make/timers in the pipeline packages, so every stage is a sequential blocking process (determinate by Kahn's argument); (R2) every channel of every pipeline is consumed exactly once; (R3) every stage closes its outputs on all exits; (R4) multi-input stages drain all inputs whichever closes first; (R5) at each join of branches of one fork — including the inputs of an exported Compute fed from one unbuffered Duplicate — capacities plus stages on the early branch cover the anchor skew, symbolically in the periods. A report is a real deadlock/leak under the all-unbuffered schedule; shortfalls smaller than the slack, livelock and runtime goroutines are not decided.",
-   "Trusts go/types, the Kahn determinacy argument, the stage summaries (C16), contracts of wrapped strategies/moving averages, Γ. R5's availability is an upper bound and its requirement a lower bound (only misses, no false alarms). Repaired: compound strategies not draining (cebb02b), Atr (06185a9), Fi (e2bb7bb).",
+   "Trusts go/types, the Kahn determinacy argument, the stage summaries (C16), contracts of wrapped strategies/moving averages, Γ. R5's availability is an upper bound and its requirement a lower bound (only misses, no false alarms). Repaired: compound strategies not draining (cebb02b), Atr (06185a9), Fi (e2bb7bb), Qstick (23f8f5d), Bop (dad78bc).",
    "§4 C03"),
  "C04": (True,
    "stream-shape calculus: consumption lead of every indicator output and action stream proved <= its label; closure-purity lint",
@@ -44,7 +44,7 @@ P = {
    "Trusts go/types, the specification tables, exact rational arithmetic in internal/sym.",
    "§4 C08"),
  "C09": (True,
-   "SSA mod-summary analysis over go/ssa with a CHA call graph (which parameters / captured variables / package variables may a function write through, to a fixpoint; allocations and received elements are fresh) + closure-cell ownership lint",
+   "SSA mod-summary analysis over go/ssa with a CHA call graph (which parameters / captured variables / package variables may a function write through, to a fixpoint; allocations and received elements are fresh) + closure-cell ownership lint + element-purity (no store into an object that travels through channels by pointer and was not allocated by the storing function)",
    "Static analysis of the mechanism the property anchors: no store, map update or delete reachable from any Compute/Report/IdlePeriod/Name/String method of the indicator and strategy types (through static calls, interface calls resolved by class-hierarchy analysis, goroutines and closures) goes through the receiver or to a package-level variable, so all per-run state is allocated per call; and every mutable local captured by a function that a stage runs in its goroutine has that function as its only user. With C03's determinacy and linearity rules this makes repeated and concurrent calls independent. Not a dynamic race detection and silent about third-party code.",
    "Trusts go/ssa, the CHA call graph and the freshness model (allocations, constructor results, received channel elements are not shared); aliasing is field-insensitive (over-approximate).",
    "§4 C09"),
@@ -69,7 +69,7 @@ P = {
    "Trusts go/types, go/ssa+CHA, go/cfg. Repaired: unsynchronised reports (bd51cda), int(float difference) comparators (9dddcd8), HTMLReport.AssetEnd results[0] on an empty list (2e636f6).",
    "§4 C13"),
  "C14": (True,
-   "stream-shape calculus on every strategy Report: each column stream vs. the date stream (length and anchor), symbolic in the periods; the indicator warm-up contracts used on the way are re-proved",
+   "stream-shape calculus on every strategy Report: each column stream vs. the date stream (length and anchor), symbolic in the periods; the indicator warm-up contracts used on the way are re-proved; value terms of the date, Close, annotation and Outcome columns",
    "Static analysis. The report template zips the date stream with one Value() per column per row; for all 40 Report methods every column found in the constructed helper.Report is proved to have exactly the date stream's length and anchor for all admissible configurations and every n beyond the warm-up.",
    "Trusts go/types, the template's zip semantics (its shape is re-checked on every run), contracts (C02, C05), Γ, Fourier–Motzkin. The Alligator/SMMA report columns inherit the pinned C05 defect (known findings); the APO column was repaired (fix: d5cfb51).",
    "§4 C14"),
